@@ -89,6 +89,9 @@ func rewriteForms(e string, pairs []suffixPair) []string {
 	return out
 }
 
+// lit is the string an entry matches: entries are words, possibly with one escaped punctuation character
+func lit(e string) string { return strings.ReplaceAll(e, `\`, "") }
+
 func genC06(t *rapid.T, tier string) (*World, any) {
 	w := NewWorld()
 	p := &C06Params{}
@@ -130,6 +133,8 @@ func genC06(t *rapid.T, tier string) (*World, any) {
 			e := pick(t, []string{"a", "b", "c", "d"}, "fw0") + drawWord(t, 0, 3, "fw")
 			if chance(t, 55, "fend") {
 				e += pick(t, endings, "fe")
+			} else if chance(t, 15, "fesc") {
+				e += pick(t, []string{`\@`, `\.s`, `\-x`}, "fescv") // an escaped character right before / as the ending
 			}
 			raw := e
 			if len(defs) > 0 && chance(t, 30, "fref") {
@@ -158,7 +163,7 @@ func genC06(t *rapid.T, tier string) (*World, any) {
 	var excNames []string
 	universe := map[string]bool{}
 	for _, e := range fEntries {
-		universe[e] = true
+		universe[lit(e)] = true
 	}
 	if p.Kind == "include-except" {
 		nx := drawInt(t, 1, 3, "nx")
@@ -207,6 +212,11 @@ func genC06(t *rapid.T, tier string) (*World, any) {
 	blockF := ""
 	if p.Kind == "include" && chance(t, 25, "blockF") {
 		blockF = pick(t, []string{"##!> cmdline unix", "##!> cmdline windows", "##!> assemble"}, "blockkind")
+		for _, e := range fEntries {
+			if strings.Contains(e, `\`) {
+				blockF = "##!> assemble" // command words of a cmdline block are not regular expressions: a backslash is a character there
+			}
+		}
 		w.Put("crs/regex-assembly/include/words.ra", joinLines(append(append([]string{blockF}, fLines...), "##!<")))
 		feat["block-in-include"] = true
 	}
@@ -233,6 +243,10 @@ func genC06(t *rapid.T, tier string) (*World, any) {
 			}
 		default:
 			used := map[string]bool{}
+			if chance(t, 25, "atpair") {
+				pairs = append(pairs, suffixPair{"@", "~"})
+				used["@"] = true
+			}
 			for i := 0; i < drawInt(t, 1, 3, "pn"); i++ {
 				k := pick(t, endings, "pk")
 				if used[k] {
@@ -302,21 +316,25 @@ func genC06(t *rapid.T, tier string) (*World, any) {
 			// competing pairs, one of which deletes: in some application order the entry is rewritten into nothing,
 			// which the statement does not rule out; its other forms are acceptable but not demanded
 			for _, f := range nonEmpty {
-				universe[f] = true
-				optional[f] = true
+				universe[lit(f)] = true
+				optional[lit(f)] = true
 			}
 			continue
 		}
-		p.Expect = append(p.Expect, nonEmpty)
+		litForms := make([]string, len(nonEmpty))
+		for i, f := range nonEmpty {
+			litForms[i] = lit(f)
+		}
+		p.Expect = append(p.Expect, litForms)
 		typedWords = append(typedWords, nonEmpty[0])
 		for _, f := range nonEmpty {
-			universe[f] = true
+			universe[lit(f)] = true
 		}
 	}
 	for _, e := range fEntries {
 		for _, f := range rewriteForms(e, pairs) {
 			if f != "" {
-				universe[f] = true
+				universe[lit(f)] = true
 			}
 		}
 	}
